@@ -104,6 +104,30 @@ fn read_disk(ws: &Path) -> Disk {
     out
 }
 
+/// Removes fifos the simulated user left in the workspace (the harness must
+/// never open one, and the disk model does not list them).
+fn remove_special_files(ws: &Path) -> Vec<String> {
+    fn walk(base: &Path, dir: &Path, out: &mut Vec<String>) {
+        let Ok(rd) = std::fs::read_dir(dir) else { return };
+        for e in rd.flatten() {
+            let p = e.path();
+            let Ok(md) = std::fs::symlink_metadata(&p) else { continue };
+            if p.file_name().is_some_and(|n| n == ".jj") {
+                continue;
+            }
+            if md.is_dir() {
+                walk(base, &p, out);
+            } else if !md.is_file() && !md.file_type().is_symlink() {
+                let _ = std::fs::remove_file(&p);
+                out.push(p.strip_prefix(base).unwrap().to_string_lossy().into_owned());
+            }
+        }
+    }
+    let mut out = vec![];
+    walk(ws, ws, &mut out);
+    out
+}
+
 fn list_dirs(ws: &Path) -> std::collections::BTreeSet<String> {
     fn walk(base: &Path, dir: &Path, out: &mut std::collections::BTreeSet<String>) {
         let Ok(rd) = std::fs::read_dir(dir) else { return };
@@ -270,6 +294,11 @@ impl Ticks {
     fn restamp(path: &Path) {
         if let Ok(md) = std::fs::symlink_metadata(path) {
             clock::GLOBAL_CLOCK.lock().unwrap().as_mut().unwrap().restamp(&md);
+        }
+    }
+    fn restamp_at(path: &Path, tick: i64) {
+        if let Ok(md) = std::fs::symlink_metadata(path) {
+            clock::GLOBAL_CLOCK.lock().unwrap().as_mut().unwrap().restamp_at(&md, tick);
         }
     }
     fn advance(dirs: &[&Path]) {
@@ -439,6 +468,12 @@ fn gen_tree(env: &Env, ch: &mut Chooser, tag: &str, allow_conflicts: bool) -> Me
             }
         }
     }
+    // a tracked file below an ignored directory (committed before the rule
+    // existed, or added with an explicit track)
+    if ch.chance(1, 4) {
+        let bytes = snapshot_convert(env.eol, &content_for(ch, &format!("{tag}g")));
+        b.set_or_remove(rp("igd/g"), Merge::normal(file_value(store, "igd/g", &bytes, false)));
+    }
     // occasionally "d" is a file, which removes d/c and d/e/f
     if ch.chance(1, 8) {
         b.set_or_remove(rp("d/c"), Merge::absent());
@@ -543,7 +578,12 @@ impl Run<'_> {
     fn user_edit(&mut self, ts: &TreeState) {
         let path = FILES[self.ch.choose(FILES.len())];
         let disk_path = self.env.ws.join(path);
-        let kind = self.ch.weighted(&[12, 4, 2, 2, 2, 2, 3]);
+        if std::fs::symlink_metadata(&disk_path).is_ok_and(|m| !m.is_file() && !m.is_dir() && !m.file_type().is_symlink()) {
+            // a fifo from an earlier step: the user removes it before doing anything else there
+            let _ = std::fs::remove_file(&disk_path);
+            self.note(format!("user removes fifo {path}"));
+        }
+        let kind = self.ch.weighted(&[12, 4, 2, 2, 2, 2, 3, 2]);
         if kind == 6 {
             self.edit_ignore_file(ts);
             return;
@@ -645,17 +685,38 @@ impl Run<'_> {
                 }
                 let _ = std::fs::create_dir_all(disk_path.parent().unwrap());
                 // in-place rewrite keeps the inode, as an editor saving a file would
+                let old_tick = Ticks::tick_of(&disk_path);
+                let state_tick = Ticks::tick_of(&self.env.state.join("tree_state"));
                 std::fs::write(&disk_path, &bytes).unwrap();
                 Ticks::restamp(&disk_path);
+                // Clock faults: a future-dated write (clock of the writer ahead, or
+                // an explicit `touch -d`), and a same-size rewrite that keeps the
+                // file's previous modification time (`touch -r`, `rsync -t`). The
+                // latter is generated only when that time is not older than the
+                // state file's, because otherwise no timestamp scheme can see it.
+                let mut clock_note = "";
+                if same
+                    && let (Some(ot), Some(st)) = (old_tick, state_tick)
+                    && ot >= st
+                    && self.ch.chance(1, 5)
+                {
+                    Ticks::restamp_at(&disk_path, ot);
+                    self.out.probe("same_size_edit_preserving_mtime", 1);
+                    clock_note = " (mtime preserved)";
+                } else if self.ch.chance(1, 8) {
+                    let ahead = 1000 * (1 + self.ch.choose(2) as i64);
+                    Ticks::restamp_at(&disk_path, Ticks::now() + ahead);
+                    self.out.probe("future_dated_write", 1);
+                    clock_note = " (future-dated)";
+                }
                 let file_tick = Ticks::tick_of(&disk_path);
-                let state_tick = Ticks::tick_of(&self.env.state.join("tree_state"));
                 if same {
                     self.out.probe("same_size_edit", 1);
                     if file_tick == state_tick {
                         self.out.probe("same_size_edit_in_state_file_tick", 1);
                     }
                 }
-                self.note(format!("user write {path} {} bytes{}", bytes.len(), if same { " (same size)" } else { "" }));
+                self.note(format!("user write {path} {} bytes{}{clock_note}", bytes.len(), if same { " (same size)" } else { "" }));
             }
             1 => {
                 if disk_path.is_dir() {
@@ -705,6 +766,30 @@ impl Run<'_> {
                     self.note("user swap: file d -> directory d with d/c".to_string());
                 }
                 self.out.probe("file_dir_swap", 1);
+            }
+            7 => {
+                // the file (or symlink) at this very path becomes a directory with
+                // a file in it, or a fifo - also inside ignored directories, where
+                // jj only re-checks the files it already tracks
+                if std::fs::symlink_metadata(&disk_path).is_ok_and(|m| !m.is_dir()) {
+                    let _ = std::fs::remove_file(&disk_path);
+                    if self.ch.chance(1, 4) {
+                        let c = std::ffi::CString::new(disk_path.as_os_str().as_encoded_bytes()).unwrap();
+                        // SAFETY: plain libc call with a valid NUL-terminated path
+                        let rc = unsafe { libc::mkfifo(c.as_ptr(), 0o644) };
+                        if rc == 0 {
+                            Ticks::restamp(&disk_path);
+                            self.note(format!("user replaces {path} by a fifo"));
+                            self.out.probe("file_replaced_by_fifo", 1);
+                        }
+                    } else {
+                        std::fs::create_dir_all(&disk_path).unwrap();
+                        std::fs::write(disk_path.join("z"), format!("inside former file {path}\n")).unwrap();
+                        Ticks::restamp(&disk_path.join("z"));
+                        self.note(format!("user replaces file {path} by a directory containing {path}/z"));
+                        self.out.probe("file_replaced_by_directory", 1);
+                    }
+                }
             }
             _ => {
                 if std::fs::symlink_metadata(&disk_path).is_ok() {
@@ -929,6 +1014,9 @@ impl Run<'_> {
         // a command always snapshots first
         if !self.snapshot(ts, "before checkout") {
             return false;
+        }
+        for p in remove_special_files(&self.env.ws) {
+            self.note(format!("user removes fifo {p}"));
         }
         let tag = format!("T{}", self.seq % 97);
         let old_tree = ts.current_tree().clone();
@@ -1257,6 +1345,9 @@ impl Run<'_> {
         if !self.snapshot(ts, "before sparse change") {
             return false;
         }
+        for p in remove_special_files(&self.env.ws) {
+            self.note(format!("user removes fifo {p}"));
+        }
         let choices: [&[&str]; 5] = [&[""], &["d"], &["a", "d/e"], &["b", "x"], &[]];
         let pats: Vec<RepoPathBuf> = choices[self.ch.choose(choices.len())]
             .iter()
@@ -1380,7 +1471,7 @@ impl Engine for WcSim {
     }
 
     fn fault_kinds(&self) -> Vec<&'static str> {
-        vec!["coarse_clock_same_tick", "touch_without_change", "obstacle_untracked_file", "obstacle_symlinked_dir", "reload_state"]
+        vec!["coarse_clock_same_tick", "future_dated_write", "edit_preserving_mtime", "touch_without_change", "obstacle_untracked_file", "obstacle_symlinked_dir", "reload_state"]
     }
 
     #[allow(clippy::too_many_lines)]
@@ -1531,6 +1622,8 @@ operation.hostname = "sim.example.com"
         let same_tick = out.probes.get("same_size_edit_in_state_file_tick").copied().unwrap_or(0);
         out.fault("coarse_clock_same_tick", same_tick);
         out.fault("touch_without_change", out.probes.get("touch_conflict_file").copied().unwrap_or(0));
+        out.fault("future_dated_write", out.probes.get("future_dated_write").copied().unwrap_or(0));
+        out.fault("edit_preserving_mtime", out.probes.get("same_size_edit_preserving_mtime").copied().unwrap_or(0));
         out.fault("obstacle_untracked_file", out.probes.get("obstacle_untracked_file").copied().unwrap_or(0));
         out.fault("obstacle_symlinked_dir", out.probes.get("obstacle_symlinked_dir").copied().unwrap_or(0));
         out.nontrivial = nontrivial || same_tick > 0;
